@@ -129,7 +129,7 @@ def _main(pid, tier, seed, replay_file):
                        'errors': common.failing_declarations(out_driver)[:10]})
         log('driver build failed')
     ok_props, out_props = common.lake_build(mod.LEAN_TARGETS)
-    theorems = common.property_theorems(pid)
+    theorems = common.property_theorems(pid, mod.LEAN_TARGETS)
     if not ok_props:
         errs = common.failing_declarations(out_props)
         broken.append({'kind': 'proof-obligation',
@@ -143,7 +143,7 @@ def _main(pid, tier, seed, replay_file):
     audit_ok = False
     forbidden = common.grep_forbidden()
     if ok_props:
-        audit_ok, axioms, raw = common.axiom_audit(pid)
+        audit_ok, axioms, raw = common.axiom_audit(pid, extra_modules=mod.LEAN_TARGETS)
         if not audit_ok:
             notes.append('axiom audit failed: %s' % json.dumps(axioms))
     if forbidden:
